@@ -153,28 +153,38 @@ impl AimdController {
 
     /// Record a success - increases the limit additively.
     pub fn record_success(&self) {
-        let current = self.limit.load(Ordering::Relaxed);
-        let new_limit = current
-            .saturating_add(self.config.increase_by)
-            .min(self.config.max_limit);
-        self.limit.store(new_limit, Ordering::Relaxed);
+        // One atomic read-modify-write: concurrent updates must not overwrite each other
+        let _ = self
+            .limit
+            .fetch_update(Ordering::Relaxed, Ordering::Relaxed, |current| {
+                Some(
+                    current
+                        .saturating_add(self.config.increase_by)
+                        .min(self.config.max_limit),
+                )
+            });
     }
 
     /// Record a failure - decreases the limit multiplicatively.
     pub fn record_failure(&self) {
-        let current = self.limit.load(Ordering::Relaxed);
-        // usize -> f64 rounds for values above 2^53: a decrease must never exceed the current limit
-        let decreased = ((current as f64 * self.config.decrease_factor) as usize).min(current);
-        let new_limit = decreased.max(self.config.min_limit);
-        self.limit.store(new_limit, Ordering::Relaxed);
+        let _ = self
+            .limit
+            .fetch_update(Ordering::Relaxed, Ordering::Relaxed, |current| {
+                // usize -> f64 rounds for values above 2^53: a decrease must never exceed the current limit
+                let decreased =
+                    ((current as f64 * self.config.decrease_factor) as usize).min(current);
+                Some(decreased.max(self.config.min_limit))
+            });
     }
 
     /// Record multiple successes at once.
     pub fn record_successes(&self, count: usize) {
-        let current = self.limit.load(Ordering::Relaxed);
         let increase = self.config.increase_by.saturating_mul(count);
-        let new_limit = current.saturating_add(increase).min(self.config.max_limit);
-        self.limit.store(new_limit, Ordering::Relaxed);
+        let _ = self
+            .limit
+            .fetch_update(Ordering::Relaxed, Ordering::Relaxed, |current| {
+                Some(current.saturating_add(increase).min(self.config.max_limit))
+            });
     }
 
     /// Reset the limit to its initial value.
